@@ -403,7 +403,7 @@ def r11_5(prog, tab):
     are or-ed in by the code generator.  Every test of `marker.flags` must therefore be a truth test or go through a
     mask; an `==` / `!=` against a non-zero enumerator without a mask silently excludes DEFAULT (or pointer-represented)
     members, e.g. from the run of optional components whose tags must be distinct."""
-    r = Rule("R11.5", "marker.flags is tested by truth value or through a mask, never by raw (in)equality with a non-zero enumerator", floor=12)
+    r = Rule("R11.5", "marker.flags is tested through a mask (in the compiler and printer also by truth value), never by raw (in)equality with a non-zero enumerator; the fixer never decides optionality by the truth value of the whole set", floor=12)
 
     def is_flags(t):
         t = strip_casts(t)
@@ -435,6 +435,22 @@ def r11_5(prog, tab):
                     counts[f.key] += 1
         if counts[f.key]:
             r.ok(f, "masked-tests", "%d tests of marker.flags go through a mask" % counts[f.key], None)
+        # in the fixer a bare truth test asks `is the component optional?`, but EM_INDIRECT (0x01) is a representation bit
+        # that the parser sets from the RepresentAsPointer directive on mandatory components too
+        if "libasn1fix/" in f.relfile:
+            m = 0
+            for b in sorted(f.blocks.values(), key=lambda b: b.id):
+                if not (b.term and "cond" in b.term):
+                    continue
+                t = strip_casts(b.term["cond"]["tree"])
+                neg = False
+                while isinstance(t, list) and t and t[0] == "un" and t[1] == "!":
+                    t = strip_casts(t[2])
+                    neg = not neg
+                if is_flags(t):
+                    m += 1
+                    r.bad(f, "truth@%d" % m, "`%s%s` decides optionality by the whole marker set: a mandatory component carrying only EM_INDIRECT "
+                                             "(--<ASN1C.RepresentAsPointer>--) is taken for an optional one; test `& EM_OMITABLE`" % ("!" if neg else "", tree_text(t)), b.term.get("line"))
     return r
 
 
